@@ -164,12 +164,15 @@ def sub_orders(acc, shard, nshards, tier):
         sp_sizes, bound4 = (2, 3, 4), 1  # (bound 2 on the 1365 four-method pools measured at > 1 h)
     import os as _os
 
+    # two positions over the hierarchy with twin protocols (distinct classes that are subclasses of each other): one method
+    # may dominate another through the second position while the first ones are merely "the same"
+    static = static + [("2pos,twin protocols,L<=2", [gen.FlavouredHierarchy.get("twins")], ["xy"], (0,), 2, 2, 2)]
     for name, hiers, shapes, prios, lo, hi, bound in static:
         if _os.environ.get("VT_C06_SPACE") and _os.environ["VT_C06_SPACE"] not in name:
             continue  # (diagnostics only: time one space)
         for h in hiers:
             ds = spaces.descriptors(h.type_names, shapes, prios)
-            calls = spaces.calls_for(h.type_names, shapes)
+            calls = spaces.calls_for(h.type_names, shapes, getattr(h, "value_names", None))
             for descs in spaces.multisets(ds, lo, hi, distinct=True):
                 idx += 1
                 if idx % nshards != shard:
@@ -288,6 +291,22 @@ def sub_regorder(acc, shard, nshards, tier):
 # sub-check 3: irrelevant methods
 
 
+class NumWorld:
+    """Builtin ABCs whose subclass relation is not even transitive: object and Hashable are subclasses of each other,
+    Number and Integral are below object but unrelated to Hashable (numbers.Number.__hash__ is None)."""
+
+    def __init__(self):
+        import collections.abc
+        import numbers
+
+        self.classes = {"O": object, "H": collections.abc.Hashable, "N": numbers.Number, "I": numbers.Integral}
+        self.instances = {"O": [], "H": "s", "N": 1.5, "I": 1}
+        self.type_names = ["O", "H", "N", "I"]
+
+    def spec(self):
+        return {"numworld": True, "classes": self.type_names}
+
+
 def sub_irrelevant(acc, shard, nshards, tier):
     idx = 0
     H = lambda lo, hi: [Hierarchy.get(a) for n in range(lo, hi + 1) for a in posets(n)]  # noqa
@@ -303,13 +322,22 @@ def sub_irrelevant(acc, shard, nshards, tier):
                   ("shapes,n<=2,L<=2", H(1, 2), S, (0,), 1, 2, None),
                   ("other-arity-added,n<=4: 1pos L<=3 + xy / x*k / xy? / x*k?", H(3, 4), ["x"], (0, 1), 2, 3, ["xy", "x*k", "xy?", "x*k?"]),
                   ("other-arity-added,n=3: 2pos L=2 + x / xy*k / xyz", H(3, 3), ["xy"], (0,), 2, 2, ["x", "xy*k", "xyz"])]
+    static = static + [("numworld: object / Hashable / Number / Integral, two 2-position methods + one 3-position method, + another 3-position method",
+                        [NumWorld()], ["xy", "xyz"], (0,), 3, 3, ["xyz"])]
     for name, hiers, shapes, prios, lo, hi, add_shapes in static:
         for h in hiers:
             ds = spaces.descriptors(h.type_names, shapes, prios)
             calls = spaces.calls_for(h.type_names, shapes)
             ds_add = ds if add_shapes is None else spaces.descriptors(h.type_names, add_shapes, (0,))
+            if name.startswith("numworld"):
+                # the 3-position methods only vary in their first type (they are there to shift the levels at position 1)
+                ds = [d for d in ds if d[0] == "xy" or d[1][1:] == ("O", "O")]
+                ds_add = [d for d in ds_add if d[1][1:] == ("O", "O")]
+                calls = [c for c in calls if len(c[0]) == 2]
             sem = StaticSem(h.classes)
             for descs in spaces.multisets(ds, lo, hi, distinct=True):
+                if name.startswith("numworld") and sum(1 for d in descs if d[0] == "xyz") != 1:
+                    continue
                 idx += 1
                 if idx % nshards != shard:
                     continue
@@ -439,7 +467,12 @@ def replay(case):
             return [("order-dependent", [o[:2] for o in outs])]
         return []
     else:
-        h = Hierarchy.get([frozenset(int(b[1:]) for b in _anc(case["hier"], c)) for c in case["hier"]["classes"]])
+        if "flavoured" in case["hier"]:
+            h = gen.FlavouredHierarchy.get(case["hier"]["flavoured"])
+        elif case["hier"].get("numworld"):
+            h = NumWorld()
+        else:
+            h = Hierarchy.get([frozenset(int(b[1:]) for b in _anc(case["hier"], c)) for c in case["hier"]["classes"]])
         mspecs = case["methods"]
         if sub == "orders":
             args = tuple(h.instances[x] for x in case["call"])
